@@ -510,3 +510,503 @@ def ob_time_window_gate(ctx, k, closed, bits, with_stop=True):
             break
     res.time = time.time() - t0
     return res
+
+
+def move_ctx_activity(env, rc, actx):
+    return EnumV('context::MoveContext', 1, {1: [RefV(Cell(Opaque('SolutionContext')), 0), RefV(Cell(rc), 0), RefV(Cell(actx), 0)]})
+
+
+def move_ctx_route(env, rc, job):
+    return EnumV('context::MoveContext', 0, {0: [RefV(Cell(Opaque('SolutionContext')), 0), RefV(Cell(rc), 0), RefV(Cell(job), 0)]})
+
+
+def sym_costs(env, prefix, bits=8, concrete=None):
+    hi = 2 ** bits
+    if concrete is not None:
+        fixed, pd, ct = (FV.const(x) for x in concrete)
+    else:
+        fixed = env.sym_f(prefix + '_fixed', 0, hi)
+        pd = env.sym_f(prefix + '_per_distance', 0, hi)
+        ct = env.sym_f(prefix + '_per_time', 0, hi)
+    sym = {'fixed': fixed, 'per_distance': pd, 'per_driving_time': ct, 'per_waiting_time': ct, 'per_service_time': ct}
+    return env.costs(fixed, pd, ct, ct, ct), sym
+
+
+def insertion_setup(ctx, env, eng, st, k, closed, p, holder, costs=False, limits=False, rates=None):
+    """Common part: feasible-shaped tour with caches from the real update + activity context for leg p."""
+    spec = TourSpec(env, k, closed)
+    if costs:
+        spec.vehicle_costs, spec.vehicle_costs_sym = sym_costs(env, 'vc', concrete=rates[:3] if rates else None)
+        spec.driver_costs, spec.driver_costs_sym = sym_costs(env, 'dc', concrete=rates[3:] if rates else None)
+    target = spec.sym_job('target')
+    holder['spec'], holder['target'] = spec, target
+    rc = spec.build()
+    rc = run_update(ctx, env, eng, st, rc)
+    acts = env.tour_activities(rc)
+    tgt_act = env.activity(target['loc'], target['dur'], target['tws'], target['twe'], FV.const(0), FV.const(0))
+    acts_vec = env.field(env.field(env.field(rc, 'context::RouteContext', 'route'), 'route::Route', 'tour'), 'solution::tour::Tour', 'activities')
+    prev_ref = RefV(acts_vec, p)
+    next_ref = RefV(acts_vec, p + 1) if p + 1 < len(acts) else None
+    actx = activity_ctx(env, p, prev_ref, RefV(Cell(tgt_act), 0), next_ref)
+    return spec, target, rc, actx
+
+
+def ref_totals(spec, jobs):
+    env = spec.env
+    nodes, arr, dep = spec.sim(jobs)
+    dist = FV.const(0)
+    for i in range(1, len(nodes)):
+        dist = fv_add(dist, FV(False, env.Dist(nodes[i - 1][0].t, nodes[i][0].t)))
+    waits = [f_max(fv_sub(nodes[i][2], arr[i]), FV.const(0)) for i in range(1, len(nodes)) if nodes[i][4]]
+    return dist, fv_sub(dep[-1], spec.dep0), waits
+
+
+def ob_distance_estimate(ctx, k, closed, bits):
+    """C20: DistanceObjective::estimate for an insertion at leg p equals the change of the tour distance total (a route
+    without jobs contributes nothing to the objective, so the change is the whole new tour there)."""
+    name = f'distance_estimate[k={k},{"closed" if closed else "open"}]'
+    res = Result(name)
+    res.bounds = f'tour of {k} jobs ({"closed" if closed else "open"}), every leg, symbolic target; integer-valued in [0,2^{bits}]; routing uninterpreted'
+    t0 = time.time()
+    for p in range(k + 1):
+        env = drivers.Env(ctx.prog, ctx.layout, bits)
+        eng = symex.Engine(ctx.prog, ctx.layout, env)
+        holder = {}
+
+        def body(st, p=p, env=env, eng=eng, holder=holder):
+            env.assumptions.clear()
+            spec, target, rc, actx = insertion_setup(ctx, env, eng, st, k, closed, p, holder)
+            obj = env.struct('transport::DistanceObjective', activity=env.arc_dyn_activity(), transport=env.arc_dyn_transport())
+            fns = ctx.prog.find_method('DistanceObjective', 'estimate', trait='FeatureObjective')
+            if len(fns) != 1:
+                raise Inconclusive('DistanceObjective::estimate not found')
+            return eng.exec_fn(st, fns[0], [RefV(Cell(obj), 0), RefV(Cell(move_ctx_activity(env, rc, actx)), 0)])
+
+        paths = eng.explore(body)
+        res.paths += len(paths)
+        res.functions |= eng.functions_used
+        seen = False
+        for st, out in paths:
+            spec, target = holder['spec'], holder['target']
+            post = spec.jobs[:p] + [target] + spec.jobs[p:]
+            extra = spec.matrix_assumptions(post)
+            if out is None:
+                if not no_panic(ctx, res, env, st, extra, what=name):
+                    break
+                continue
+            d0, _, _ = ref_totals(spec, None)
+            d1, _, _ = ref_totals(spec, post)
+            delta = fv_sub(d1, d0) if k > 0 else d1
+            if not decide_claim(ctx, res, env, st, f_eq(out, delta), extra, what=f'{name} leg {p}: estimate == realised distance change'):
+                if res.model is not None:
+                    res.case = make_case('estimate_distance', env, spec, res.model, target, p)
+                break
+            if not no_panic(ctx, res, env, st, extra, what=name):
+                break
+            seen = seen or witness(ctx, res, env, st, z3.Not(f_eq(out, FV.const(0))), extra)
+        if res.status != 'holds':
+            break
+        res.witnesses += int(seen)
+        if not seen:
+            res.status, res.detail = 'inconclusive', f'vacuous at leg {p}'
+            break
+    res.time = time.time() - t0
+    return res
+
+
+def ref_cost(spec, jobs, empty_counts=False):
+    """Total cost of the route by the definition used for the fitness (get_total_cost): vehicle + driver."""
+    d, t, _ = ref_totals(spec, jobs)
+    total = z3.IntVal(0)
+    for c in (spec.vehicle_costs_sym, spec.driver_costs_sym):
+        ct = c['per_driving_time']
+        total = total + c['fixed'].v + c['per_distance'].v * d.v + ct.v * t.v
+    return total
+
+
+RATE_VECTORS_QUICK = [(1, 1, 1, 0, 0, 0), (0, 0, 0, 1, 1, 1), (3, 2, 5, 1, 4, 2)]
+RATE_VECTORS_THOROUGH = [(1, 0, 0, 0, 0, 0), (0, 1, 0, 0, 0, 0), (0, 0, 1, 0, 0, 0), (0, 0, 0, 1, 0, 0), (0, 0, 0, 0, 1, 0), (0, 0, 0, 0, 0, 1),
+                         (3, 2, 5, 1, 4, 2), (100, 7, 13, 50, 3, 11)]
+
+
+def ob_cost_estimate(ctx, k, closed, bits, rate_vectors=None):
+    """C20: CostObjective route estimate + activity estimate == change of the total cost (fixed + distance + time costs,
+    vehicle and driver) whenever the tour contains no waiting before and after the insertion."""
+    name = f'cost_estimate[k={k},{"closed" if closed else "open"}]'
+    res = Result(name)
+    rate_vectors = rate_vectors or RATE_VECTORS_QUICK
+    res.bounds = (f'tour of {k} jobs ({"closed" if closed else "open"}), every leg, symbolic target; times in [0,2^{bits}]; cost rate vectors '
+                  f'(vehicle fixed/distance/time, driver fixed/distance/time) in {rate_vectors} - the estimate is a linear form in the rates, '
+                  f'so the unit vectors of the thorough tier span every rate vector; one time rate per actor part; no waiting before/after '
+                  f'(precondition of the property)')
+    t0 = time.time()
+    for p, rates in [(p, r) for p in range(k + 1) for r in rate_vectors]:
+        env = drivers.Env(ctx.prog, ctx.layout, bits)
+        eng = symex.Engine(ctx.prog, ctx.layout, env)
+        holder = {}
+
+        def body(st, p=p, env=env, eng=eng, holder=holder, rates=rates):
+            env.assumptions.clear()
+            spec, target, rc, actx = insertion_setup(ctx, env, eng, st, k, closed, p, holder, costs=True, rates=rates)
+            obj = env.struct('transport::CostObjective', activity=env.arc_dyn_activity(), transport=env.arc_dyn_transport())
+            fns = ctx.prog.find_method('CostObjective', 'estimate', trait='FeatureObjective')
+            if len(fns) != 1:
+                raise Inconclusive('CostObjective::estimate not found')
+            a = eng.exec_fn(st, fns[0], [RefV(Cell(obj), 0), RefV(Cell(move_ctx_activity(env, rc, actx)), 0)])
+            job = EnumV('jobs::Job', 0, {0: [ArcV(Cell(Opaque('Single')))]})
+            r = eng.exec_fn(st, fns[0], [RefV(Cell(obj), 0), RefV(Cell(move_ctx_route(env, rc, job)), 0)])
+            return a, r
+
+        paths = eng.explore(body)
+        res.paths += len(paths)
+        res.functions |= eng.functions_used
+        seen = False
+        for st, out in paths:
+            spec, target = holder['spec'], holder['target']
+            post = spec.jobs[:p] + [target] + spec.jobs[p:]
+            extra = spec.matrix_assumptions(post)
+            _, _, w0 = ref_totals(spec, None)
+            _, _, w1 = ref_totals(spec, post)
+            nowait = [f_eq(w, FV.const(0)) for w in w0 + w1]
+            extra = extra + nowait
+            if out is None:
+                if not no_panic(ctx, res, env, st, extra, what=name):
+                    break
+                continue
+            a, r = out
+            est = a.v + r.v
+            delta = ref_cost(spec, post) - (ref_cost(spec, None) if k > 0 else 0)
+            claim = z3.And(z3.Not(a.m), z3.Not(r.m), est == delta)
+            if not decide_claim(ctx, res, env, st, claim, extra, what=f'{name} leg {p}: estimate == realised cost change'):
+                if res.model is not None:
+                    res.case = make_case('estimate_cost', env, spec, res.model, target, p)
+                break
+            if not no_panic(ctx, res, env, st, extra, what=name):
+                break
+            seen = seen or witness(ctx, res, env, st, est > 0, extra)
+        if res.status != 'holds':
+            break
+        res.witnesses += int(seen)
+        if not seen:
+            res.status, res.detail = 'inconclusive', f'vacuous at leg {p}'
+            break
+    res.time = time.time() - t0
+    return res
+
+
+def ob_limits_gate(ctx, k, closed, bits):
+    """C01: TravelLimitConstraint accepts an insertion only if the tour distance and duration after the insertion stay
+    within the limits (sound for both; exact for distance)."""
+    name = f'limits_gate[k={k},{"closed" if closed else "open"}]'
+    res = Result(name)
+    res.bounds = f'tour of {k} jobs ({"closed" if closed else "open"}), every leg, symbolic target, optional symbolic distance/duration limits; integer-valued in [0,2^{bits}]'
+    t0 = time.time()
+    for p in range(k + 1):
+        env = drivers.Env(ctx.prog, ctx.layout, bits)
+        eng = symex.Engine(ctx.prog, ctx.layout, env)
+        holder = {}
+
+        def body(st, p=p, env=env, eng=eng, holder=holder):
+            env.assumptions.clear()
+            spec, target, rc, actx = insertion_setup(ctx, env, eng, st, k, closed, p, holder)
+            has_d, has_t = z3.Bool('has_limit_distance'), z3.Bool('has_limit_duration')
+            ld, lt = env.sym_f('limit_distance', 0, 2 ** (bits + 3)), env.sym_f('limit_duration', 0, 2 ** (bits + 3))
+            holder['limits'] = (has_d, ld, has_t, lt)
+            env.closures = {
+                'limit_distance': lambda e, s, a: mk_option(has_d, ld, ty='Option<f64>'),
+                'limit_duration': lambda e, s, a: mk_option(has_t, lt, ty='Option<f64>'),
+            }
+            from symex import DynV
+            con = env.struct('tour_limits::TravelLimitConstraint', transport=env.arc_dyn_transport(),
+                             tour_distance_limit_fn=ArcV(Cell(DynV('limit_distance'))), tour_duration_limit_fn=ArcV(Cell(DynV('limit_duration'))),
+                             distance_code=Agg('struct', [IV(3, 'i32')], 'goal::ViolationCode'), duration_code=Agg('struct', [IV(4, 'i32')], 'goal::ViolationCode'))
+            fns = ctx.prog.find_method('TravelLimitConstraint', 'evaluate', trait='FeatureConstraint')
+            if len(fns) != 1:
+                raise Inconclusive('TravelLimitConstraint::evaluate not found')
+            return eng.exec_fn(st, fns[0], [RefV(Cell(con), 0), RefV(Cell(move_ctx_activity(env, rc, actx)), 0)])
+
+        paths = eng.explore(body)
+        res.paths += len(paths)
+        res.functions |= eng.functions_used
+        saw_acc = saw_rej = False
+        for st, out in paths:
+            spec, target = holder['spec'], holder['target']
+            has_d, ld, has_t, lt = holder['limits']
+            post = spec.jobs[:p] + [target] + spec.jobs[p:]
+            extra = spec.matrix_assumptions(post)
+            if out is None:
+                if not no_panic(ctx, res, env, st, extra, what=name):
+                    break
+                continue
+            d1, t1, _ = ref_totals(spec, post)
+            # the tour as it stands respects its own limits (the gate is what maintains this invariant; a tour that already
+            # exceeds a limit is not reachable through it) - a tour without jobs is not subject to the limits yet
+            if k > 0:
+                d0, t0_, _ = ref_totals(spec, None)
+                extra = extra + [z3.Or(z3.Not(has_d), f_le(d0, ld)), z3.Or(z3.Not(has_t), f_le(t0_, lt))]
+            accepted = zs(out.discr == 0)
+            within_d = z3.Or(z3.Not(has_d), f_le(d1, ld))
+            within_t = z3.Or(z3.Not(has_t), f_le(t1, lt))
+            sound = z3.Implies(accepted, z3.And(within_d, within_t))
+            exact_d = z3.Implies(z3.And(z3.Not(has_t), z3.Not(accepted)), z3.Not(within_d))
+            if not decide_claim(ctx, res, env, st, z3.And(sound, exact_d), extra, what=f'{name} leg {p}: accepted => totals within limits (and distance exact)'):
+                if res.model is not None:
+                    m = res.model
+                    lim = {'limit_distance': _ev_int(m, ld.v) if z3.is_true(m.eval(has_d, model_completion=True)) else None,
+                           'limit_duration': _ev_int(m, lt.v) if z3.is_true(m.eval(has_t, model_completion=True)) else None}
+                    lim['check_exact'] = lim['limit_duration'] is None
+                    res.case = make_case('limits', env, spec, m, target, p, extra=lim)
+                break
+            if not no_panic(ctx, res, env, st, extra, what=name):
+                break
+            saw_acc = saw_acc or witness(ctx, res, env, st, z3.And(accepted, has_d, has_t), extra)
+            saw_rej = saw_rej or witness(ctx, res, env, st, z3.Not(accepted), extra)
+        if res.status != 'holds':
+            break
+        res.witnesses += int(saw_acc) + int(saw_rej)
+        if not (saw_acc and saw_rej):
+            res.status, res.detail = 'inconclusive', f'vacuous at leg {p}: accepted={saw_acc} rejected={saw_rej}'
+            break
+    res.time = time.time() - t0
+    return res
+
+
+# ---------------------------------------------------------------------------------------------------------------------
+# capacity (T := SingleDimLoad)
+
+def load_v(env, t):
+    return env.struct('load::SingleDimLoad', value=IV(t, 'i32'))
+
+
+def demand_v(env, d):
+    """d: dict sp, dp, sd, dd -> IV"""
+    return env.struct('load::Demand', pickup=Agg('tuple', [load_v(env, d['sp'].t), load_v(env, d['dp'].t)]),
+                      delivery=Agg('tuple', [load_v(env, d['sd'].t), load_v(env, d['dd'].t)]))
+
+
+def sym_demand(env, name, kind):
+    """kind: 'static' (pickup or delivery), 'dynamic' (shipment leg), 'any'"""
+    hi = 2 ** 14
+    d = {k: env.sym_i(f'{name}_{k}', 0, hi, 'i32') for k in ('sp', 'dp', 'sd', 'dd')}
+    # a single task carries ONE kind of demand (static pickup, static delivery, shipment pickup or shipment delivery);
+    # several kinds in one task is DemandType::Mixed, which the code base documents as having no meaning
+    keys = list(d)
+    for i in range(4):
+        for j in range(i + 1, 4):
+            env.assumptions.append(z3.Or(d[keys[i]].t == 0, d[keys[j]].t == 0))
+    return d
+
+
+def single_job(env, demand):
+    dimens = StateV({'job_demand': demand_v(env, demand)} if demand is not None else {})
+    return ArcV(Cell(env.struct('jobs::Single', places=VecV([]), dimens=dimens)))
+
+
+def capacity_tour(env, k, closed, capacity, demands, old_states=True):
+    acts = [env.activity(IV(0), FV.const(0), FV.const(0), FV.max_value(), FV.const(0), FV.const(0), has_job=False)]
+    for i in range(k):
+        acts.append(env.activity(IV(i + 1), FV.const(0), FV.const(0), FV.max_value(), FV.const(0), FV.const(0), job=single_job(env, demands[i])))
+    if closed:
+        acts.append(env.activity(IV(0), FV.const(0), FV.const(0), FV.max_value(), FV.const(0), FV.const(0), has_job=False))
+    dimens = StateV({'vehicle_capacity': load_v(env, capacity.t)})
+    actor = env.actor(IV(0), FV.const(0), IV(0) if closed else None, FV.const(1000) if closed else FV.max_value(), dimens=dimens)
+    return env.route_ctx(actor, acts, closed)
+
+
+def ref_profile(demands, extra_at=None):
+    """Reference load profile: static deliveries are on board from the start, static pickups stay until the end,
+    dynamic changes apply in place. Returns the list of loads after each stop (index 0 = after the start depot)."""
+    start = z3.IntVal(0)
+    for d in demands:
+        start = start + d['sd'].t
+    cur = start
+    loads = [cur]
+    for d in demands:
+        cur = cur + d['sp'].t + d['dp'].t - d['sd'].t - d['dd'].t
+        loads.append(cur)
+    return loads
+
+
+def multitrip(env):
+    return env.struct('capacity::CapacitatedMultiTrip', route_intervals=EnumV('route_intervals::RouteIntervals', 0, {}),
+                      violation_code=Agg('struct', [IV(2, 'i32')], 'goal::ViolationCode'), phantom=UnitV())
+
+
+def ob_capacity_gate(ctx, k, closed):
+    """C06(6)(7) / C01: load caches computed by the real `recalculate_states` (T := SingleDimLoad) equal the reference
+    load profile, and the real `CapacitatedMultiTrip::evaluate_activity` accepts an insertion after stop p exactly when
+    the reference load profile of the tour after the insertion never exceeds the capacity (static and dynamic demand
+    mixed in one tour)."""
+    name = f'capacity_gate[k={k},{"closed" if closed else "open"}]'
+    res = Result(name)
+    res.bounds = (f'tour of {k} jobs with arbitrary mixed static/dynamic demand, every insertion index, arbitrary target demand; single dimension, '
+                  f'amounts in [0,2^14], capacity in [0,2^15]; single route interval (no reloads)')
+    t0 = time.time()
+    for p in range(k + 1):
+        env = drivers.Env(ctx.prog, ctx.layout, 16)
+        env.type_subst = {'T': 'load::SingleDimLoad'}
+        eng = symex.Engine(ctx.prog, ctx.layout, env)
+        holder = {}
+
+        def body(st, p=p, env=env, eng=eng, holder=holder):
+            env.assumptions.clear()
+            capacity = env.sym_i('capacity', 0, 2 ** 15, 'i32')
+            demands = [sym_demand(env, f'd{i + 1}', 'any') for i in range(k)]
+            target = sym_demand(env, 'target', 'any')
+            holder.update(capacity=capacity, demands=demands, target=target)
+            rc = capacity_tour(env, k, closed, capacity, demands)
+            # stale caches that must be overwritten
+            state = env.state_of(rc)
+            for key in ('current_capacity', 'max_past_capacity', 'max_future_capacity'):
+                state.table[key] = VecV([load_v(env, z3.Int(f'stale_{key}_{i}')) for i in range(k + 2)])
+            mt = multitrip(env)
+            fns = ctx.prog.find_method('CapacitatedMultiTrip', 'recalculate_states', trait='MultiTrip')
+            if len(fns) != 1:
+                raise Inconclusive('CapacitatedMultiTrip::recalculate_states not found')
+            cell = Cell(rc)
+            eng.exec_fn(st, fns[0], [RefV(Cell(mt), 0), RefV(cell, 0, True)])
+            rc = cell.v
+            holder['rc_state'] = env.state_of(rc)
+            tgt_act = env.activity(IV(99), FV.const(0), FV.const(0), FV.max_value(), FV.const(0), FV.const(0), job=single_job(env, target))
+            acts_vec = env.field(env.field(env.field(rc, 'context::RouteContext', 'route'), 'route::Route', 'tour'), 'solution::tour::Tour', 'activities')
+            n = len(acts_vec.items)
+            actx = activity_ctx(env, p, RefV(acts_vec, p), RefV(Cell(tgt_act), 0), RefV(acts_vec, p + 1) if p + 1 < n else None)
+            ev = ctx.prog.find_method('CapacitatedMultiTrip', 'evaluate_activity')
+            if len(ev) != 1:
+                raise Inconclusive('CapacitatedMultiTrip::evaluate_activity not found')
+            return eng.exec_fn(st, ev[0], [RefV(Cell(mt), 0), RefV(Cell(rc), 0), RefV(Cell(actx), 0)])
+
+        paths = eng.explore(body)
+        res.paths += len(paths)
+        res.functions |= eng.functions_used
+        saw_acc = saw_rej = False
+        for st, out in paths:
+            capacity, demands, target = holder['capacity'], holder['demands'], holder['target']
+            loads = ref_profile(demands)
+            pre_ok = z3.And(*[l <= capacity.t for l in loads])
+            assume = [pre_ok]
+            if out is None:
+                if not no_panic(ctx, res, env, st, assume, what=name):
+                    break
+                continue
+            state = holder['rc_state']
+            n = k + 2 if closed else k + 1
+            claims = []
+            cur = state.table['current_capacity'].items
+            past = state.table['max_past_capacity'].items
+            fut = state.table['max_future_capacity'].items
+            if not (len(cur) == len(past) == len(fut) == n):
+                res.status, res.detail = 'violated', 'capacity state vectors have unexpected length'
+                break
+            full = loads + ([loads[-1]] if closed else [])   # the end depot carries the last load
+            val = lambda a: a.fields[0].t
+            for i in range(n):
+                claims.append(val(cur[i]) == full[i])
+                mp = z3.IntVal(0)
+                for j in range(i + 1):
+                    mp = z3.If(full[j] > mp, full[j], mp)
+                claims.append(val(past[i]) == mp)
+                mf = full[n - 1]
+                for j in range(i, n):
+                    mf = z3.If(full[j] > mf, full[j], mf)
+                claims.append(val(fut[i]) == mf)
+            if not decide_claim(ctx, res, env, st, z3.And(*claims), assume, what=f'{name} idx {p}: load caches == reference profile'):
+                break
+            post = ref_profile(demands[:p] + [target] + demands[p:])
+            post_ok = z3.And(*[l <= capacity.t for l in post])
+            has_demand = z3.Or(*[target[key].t != 0 for key in ('sp', 'dp', 'sd', 'dd')])
+            accepted = zs(out.discr == 0)
+            claim = z3.And(z3.Implies(accepted, post_ok), z3.Implies(z3.And(post_ok), accepted))
+            if not decide_claim(ctx, res, env, st, claim, assume, what=f'{name} idx {p}: accepted <=> load profile after insertion within capacity'):
+                if res.model is not None:
+                    m = res.model
+                    ev = lambda d: {key: _ev_int(m, d[key].t) for key in ('sp', 'dp', 'sd', 'dd')}
+                    res.case = {'kind': 'capacity_gate', 'closed': closed, 'shift_start': 0, 'dep0': 0, 'shift_end': 100000, 'l0': 0, 'lend': 0,
+                                'capacity': _ev_int(m, capacity.t), 'leg': p, 'dur': [], 'dist': [], 'dur_default': 0, 'dist_default': 0,
+                                'jobs': [{'loc': i + 1, 'dur': 0, 'tws': 0, 'twe': None, 'demand': ev(d)} for i, d in enumerate(demands)],
+                                'target': {'loc': 99, 'dur': 0, 'tws': 0, 'twe': None, 'demand': ev(target)}}
+                break
+            if not no_panic(ctx, res, env, st, assume, what=name):
+                break
+            saw_acc = saw_acc or witness(ctx, res, env, st, z3.And(accepted, has_demand), assume)
+            saw_rej = saw_rej or witness(ctx, res, env, st, z3.Not(accepted), assume)
+        if res.status != 'holds':
+            break
+        res.witnesses += int(saw_acc) + int(saw_rej)
+        if not (saw_acc and saw_rej):
+            res.status, res.detail = 'inconclusive', f'vacuous at index {p}: accepted={saw_acc} rejected={saw_rej}'
+            break
+    res.time = time.time() - t0
+    return res
+
+
+def ob_total_cost_fold(ctx, bits=16, rate_vectors=None):
+    """C03: one step of the `get_total_cost` fold (real closure MIR) adds fixed + per_distance*d + time_rate*T for the
+    vehicle and for the driver, where d/T are the cached tour totals; a route whose totals are missing makes the cost
+    unavailable (None) instead of a wrong number."""
+    name = 'total_cost_fold'
+    res = Result(name)
+    rate_vectors = rate_vectors or RATE_VECTORS_QUICK
+    res.bounds = f'one route, symbolic accumulated cost and tour totals in [0,2^{bits}], cost rate vectors {rate_vectors}; totals present / absent'
+    t0 = time.time()
+    f = None
+    for cand in ctx.prog.find_method('InsertionContext', 'get_total_cost'):
+        f = cand
+    if f is None:
+        raise Inconclusive('InsertionContext::get_total_cost not found')
+    step = ctx.prog.closure_of(f, 1)
+    get_cost = ctx.prog.closure_of(f, 0)
+    import re as _re
+    for rates in rate_vectors:
+        for present in (True, False):
+            env = drivers.Env(ctx.prog, ctx.layout, bits)
+            eng = symex.Engine(ctx.prog, ctx.layout, env)
+            holder = {}
+
+            def body(st, env=env, eng=eng, holder=holder, rates=rates, present=present):
+                env.assumptions.clear()
+                spec = TourSpec(env, 1, True)
+                spec.vehicle_costs, spec.vehicle_costs_sym = sym_costs(env, 'vc', concrete=rates[:3])
+                spec.driver_costs, spec.driver_costs_sym = sym_costs(env, 'dc', concrete=rates[3:])
+                rc = spec.build()
+                td, tdur, acc = env.sym_f('total_distance'), env.sym_f('total_duration'), env.sym_f('acc', 0, 2 ** 24)
+                holder.update(spec=spec, td=td, tdur=tdur, acc=acc)
+                state = env.state_of(rc)
+                state.table['total_distance'] = td
+                if present:
+                    state.table['total_duration'] = tdur
+                c0 = Agg('closure', [], 'get_cost', fn_name=_re.search(r'\{closure@[^}]*\}', get_cost.header).group(0))
+                c1 = Agg('closure', [RefV(Cell(c0), 0)], 'step', fn_name=_re.search(r'\{closure@[^}]*\}', step.header).group(0))
+                return eng.exec_fn(st, step, [RefV(Cell(c1), 0, True), acc, RefV(Cell(rc), 0)])
+
+            paths = eng.explore(body)
+            res.paths += len(paths)
+            res.functions |= eng.functions_used
+            for st, out in paths:
+                if out is None:
+                    if not no_panic(ctx, res, env, st, what=name):
+                        break
+                    continue
+                spec, td, tdur, acc = holder['spec'], holder['td'], holder['tdur'], holder['acc']
+                if present:
+                    expected = acc.v
+                    for c in (spec.vehicle_costs_sym, spec.driver_costs_sym):
+                        expected = expected + c['fixed'].v + c['per_distance'].v * td.v + c['per_driving_time'].v * tdur.v
+                    val = out.payload[1][0]
+                    claim = z3.And(out.discr == 1, z3.Not(val.m), val.v == expected)
+                else:
+                    claim = out.discr == 0
+                if not decide_claim(ctx, res, env, st, claim, what=f'{name}: acc + vehicle cost + driver cost'):
+                    break
+                if not no_panic(ctx, res, env, st, what=name):
+                    break
+                if witness(ctx, res, env, st, z3.BoolVal(True)):
+                    res.witnesses += 1
+            if res.status != 'holds':
+                break
+        if res.status != 'holds':
+            break
+    if res.status == 'holds' and res.witnesses == 0:
+        res.status, res.detail = 'inconclusive', 'vacuous'
+    res.time = time.time() - t0
+    return res
